@@ -48,9 +48,12 @@ CLAIMED["C13"] = dict(
     text="Coq theorems over Model/Chan.v (data-channel layer) for ALL input lists incl. every interleaving of "
          "deferred flush/reconfig tasks: DCEP OPEN round trip for every label/protocol/reliability setting; "
          "readyState rank never decreases; at most one open and one close event per channel, emitted exactly at "
-         "the crossing steps. PARTIAL: bufferedAmount accounting, id parity/freshness and 'association end closes "
-         "all' are not yet theorems (checked by correspondence + oracle); the two-endpoint close protocol is "
-         "observed only and is refuted by known findings K4 (RE-CONFIG never retransmitted), K9 (reset request "
+         "the crossing steps; bufferedAmount of every live channel equals the queued user bytes not yet handed to "
+         "the transport (never negative, zero when drained) under every congestion oracle; association end closes "
+         "every channel and empties table and queue; auto-chosen ids are unused and of the role's parity, live "
+         "channels have pairwise distinct ids, closing never raises KeyError (10 theorems). PARTIAL: 'exactly one "
+         "datachannel event on the peer', cross-endpoint id disjointness and the two-endpoint close protocol are "
+         "observed only; the latter is refuted by known findings K4 (RE-CONFIG never retransmitted), K9 (reset request "
          "processed before the DATA it follows), K10 (id reused before both directions are reset).",
     design_ref="5 / C13",
     note="Congestion state (is _outbound_queue empty after a _send) and UTF-8 validity are oracle inputs of the "
